@@ -533,13 +533,27 @@ func (b *Bundle) CollisionX(rel, kind string, where []string, aliasUsed bool) {
 	b.AuxDef("sub/a.json", remote, b.refFreeSchema(kind))
 	ref := "sub/a.json#/definitions/" + remote
 	for _, w := range where {
+		if w == "remoteCyclicHolder" {
+			// the referrers sit inside a self-recursive definition of the same auxiliary document (imported as a whole)
+			node := "node" + k
+			b.AuxDef("sub/a.json", node, jx.Obj{"type": "object", "description": b.lbl("rch"), "properties": jx.Obj{
+				"next":  jx.Obj{"$ref": "#/definitions/" + node},
+				"first": jx.Obj{"$ref": "#/definitions/" + remote},
+				"more":  jx.Obj{"type": "array", "items": jx.Obj{"$ref": "#/definitions/" + remote}}}})
+			op := b.Op(b.newPath(), Pick(b.rng, MethodsAll), true)
+			jx.AsObj(op["responses"])["200"] = jx.Obj{"description": b.lbl("rch"), "schema": jx.Obj{"$ref": "sub/a.json#/definitions/" + node}}
+			b.Tag("cycle")
+			continue
+		}
 		b.referFrom(w, ref, aliasUsed)
 	}
 	if rel == "threeWay" {
 		third := "THING" + k
 		b.AuxDef("other/c.json", third, b.refFreeSchema(kind))
 		for _, w := range where {
-			b.referFrom(w, "other/c.json#/definitions/"+third, aliasUsed)
+			if w != "remoteCyclicHolder" {
+				b.referFrom(w, "other/c.json#/definitions/"+third, aliasUsed)
+			}
 		}
 	}
 	b.Tag("multi-doc")
@@ -554,6 +568,7 @@ func collisionWhereSets() [][]string {
 		{"defProperty", "codeResponse"}, {"defAlias", "defProperty"}, {"defAlias", "codeResponse"}, {"defItems", "opParam"},
 		{"defAllOf", "defaultResponse"}, {"defProperty", "defProperty"}, {"codeResponse", "opParam"}, {"defAddProps", "respItems"},
 		{"defAlias", "defItems", "codeResponse"}, {"defProperty", "respProperty", "sharedResponse"},
+		{"remoteCyclicHolder"}, {"remoteCyclicHolder", "codeResponse"}, {"defProperty", "remoteCyclicHolder"},
 	}...)
 	return out
 }
